@@ -32,6 +32,7 @@ class PartialProfile(Profile):
     dictkey       : ``V['k']`` on a listed variable unguarded by ``'k' in V`` -> KeyError
     decimal       : ``Decimal(x)`` -> decimal.InvalidOperation, TypeError, ValueError
     decode        : ``x.decode(..)`` on non-constant bytes without ``errors=`` -> UnicodeDecodeError
+    optional_compare : ``a < b`` where an operand is read from a field annotated Optional, not guarded -> TypeError
     """
 
     def __init__(self, name: str, scope: dict[str, dict], len_facts=()):
@@ -170,6 +171,14 @@ class PartialProfile(Profile):
                 only = ops["optional_attr"]
                 if only is True or v.attr in only:
                     yield "AttributeError", self._optional_guards(ctx, cfg, v.attr), f"self.{v.attr}.{sub.attr}"
+        # ---- ordering comparison with a value read from an Optional field: None < 1 raises TypeError
+        if "optional_compare" in ops and isinstance(sub, ast.Compare) and any(isinstance(o, (ast.Lt, ast.LtE, ast.Gt, ast.GtE)) for o in sub.ops):
+            T = ctx.terms
+            for operand in [sub.left] + list(sub.comparators):
+                t = T.of(cfg, n, operand)
+                fld = self._optional_field(ctx, cfg, t)
+                if fld:
+                    yield "TypeError", self._not_none_guards(ctx, cfg, n, operand, t), f"ordering comparison with Optional {fld}"
         # ---- futures
         if "future_set" in ops and isinstance(sub, ast.Call) and isinstance(sub.func, ast.Attribute):
             if sub.func.attr in ("set_result", "set_exception"):
@@ -238,6 +247,52 @@ class PartialProfile(Profile):
                     yield "decimal.InvalidOperation", None, "Decimal(…)"
                     yield "TypeError", None, "Decimal(…)"
                     yield "ValueError", None, "Decimal(…)"
+
+    def _optional_field(self, ctx, cfg: CFG, t) -> str | None:
+        """t = <self.attr of known class type>.<field annotated Optional> -> 'Class.field'"""
+        from .resolve import _ann_types
+
+        if not (isinstance(t, tuple) and len(t) == 3 and t[0] == "attr"):
+            return None
+        base, fld = t[1], t[2]
+        f = cfg.func
+        owner = f
+        while owner.parent is not None:
+            owner = owner.parent
+        types = set()
+        if base[0] == "attr" and base[1] == ("param", "self") and owner.cls is not None:
+            types = ctx.res.attr_type(owner.cls.qualname, base[2])
+        for tn in types:
+            c = ctx.prog.classes.get(tn)
+            if c is None:
+                continue
+            for cn in ctx.prog.mro(tn):
+                cc = ctx.prog.classes.get(cn)
+                if cc is not None and fld in cc.annotations:
+                    _ty, opt = _ann_types(ctx.prog, cc.module, cc.annotations[fld])
+                    if opt:
+                        return f"{cc.name}.{fld}"
+        return None
+
+    def _not_none_guards(self, ctx, cfg: CFG, node: Node, operand: ast.expr, t) -> list:
+        """edges after which the compared value is known not to be None (tests on the same term)"""
+        T = ctx.terms
+        from .terms import strip_sites
+
+        edges = []
+        st = strip_sites(t)
+        for m in cfg.nodes:
+            if m.kind != "test":
+                continue
+            e = m.exprs[0]
+            tt = strip_sites(T.of(cfg, m, e))
+            if tt == st:
+                edges += cfg.out_edges(m, ("T",))
+            elif tt[0] == "cmp" and tt[1] in (("IsNot",), ("Is",)) and tt[2][0] == st and tt[2][1] == ("const", None):
+                edges += cfg.out_edges(m, ("T",) if tt[1] == ("IsNot",) else ("F",))
+            elif tt[0] == "call" and tt[1] == ("glob", "isinstance") and len(tt[2]) == 2 and tt[2][0] == st:
+                edges += cfg.out_edges(m, ("T",))
+        return edges
 
     # ------------------------------------------------------------------ guards (edges)
     def _optional_guards(self, ctx, cfg: CFG, attr: str) -> list:
